@@ -19,6 +19,7 @@ def run(ctx, sess):
     ctx.rule('C01.f', 'seek descent: in the index descent of jls_core_fsr_seek / jls_core_ts_seek no compound-updated local (other than the level counter) carries a value from one level into the next; the step size of a level is computed from the definition and that level alone')
     ctx.rule('C01.g', '"the reader reports exactly the number of samples": at close every FSR summary level whose index holds entries is written, unless its single entry is the first chunk of the level below and the level has no chunk on disk (then that chunk is reachable through its own track head)')
     ctx.rule('C01.h', '"the reader reports exactly the number of samples": a block is omitted only when it is full; the sample count of a partial block exists only in its data chunk')
+    ctx.rule('C01.i', '"for every accepted data type, incl. 1- and 4-bit": the threaded entry queues ceil(count x bits / 8) bytes of the caller\'s block for every width and count residue, so no trailing sub-byte sample is dropped before the writer sees it (shared with C06.13)')
     ctx.rule('C01.b', 'grow-to-fit: buffer growth strictly increasing and overflow-free; the grow request covers the on-disk payload size for every residue')
     f = P.fn('jls_core_rd_fsr_level1')
     ctx.saw(f)
@@ -86,6 +87,8 @@ def run(ctx, sess):
     from .frames import frames_rule
     frames_rule(ctx, P, 'C01.e')
     descent_purity(ctx, P, 'C01.f')
+    from .c06 import sample_bytes_rule
+    sample_bytes_rule(ctx, P, 'C01.i')
     from .c11 import pending_index_rule
     pending_index_rule(ctx, P, 'C01.g', ('src/wr_fsr.c',))
 
